@@ -61,9 +61,9 @@ TAGS = ["weight", "bias", "norm", "output"]
 DEPTHS = [None, 1, 7]
 KINDS = [
     "param", "param", "holder", "holder", "linear", "readout", "layernorm", "rmsnorm",
-    "embedding", "conv1d", "depthseq", "mlp", "mixed",
+    "embedding", "conv1d", "depthseq", "mlp", "mixed", "depthlist", "transformer", "mhsa",
 ]
-DTYPES = ["float64", "float16", "float32", "bfloat16"]
+DTYPES = ["float64", "float16", "float32", "bfloat16", "double()", "float()", "bfloat16()"]
 TRANSFORMS = ["simulate_fp8", "simulate_format", "track_scales", "compile", "unit_scale"]
 MAX_HANDLES = 8
 
@@ -224,6 +224,13 @@ def _build(spec: Dict[str, Any]) -> Any:
         )
     if kind == "mlp":
         return uu.MLP(a)
+    if kind == "depthlist":
+        return uu.DepthModuleList([uu.Linear(a, a, bias=True), uu.LayerNorm(a, elementwise_affine=True),
+                                   uu.Linear(a, b)])
+    if kind == "transformer":
+        return uu.TransformerLayer(4, heads=2, mhsa_tau=0.3, mlp_tau=0.6, is_causal=spec["flag"])
+    if kind == "mhsa":
+        return uu.MHSA(4, heads=2, is_causal=spec["flag"])
     raise ValueError(kind)
 
 
@@ -504,8 +511,12 @@ def execute(plan: Dict[str, Any]) -> Dict[str, Any]:
             elif k == "to":
                 if h.kind != "module":
                     continue
-                dt = getattr(torch, op["dtype"])
-                r = h.obj.half() if op["dtype"] == "float16" else h.obj.to(dt)
+                if op["dtype"].endswith("()"):  # the method spelling: module.double() / .float() / .bfloat16()
+                    dt = {"double()": torch.float64, "float()": torch.float32, "bfloat16()": torch.bfloat16}[op["dtype"]]
+                    r = getattr(h.obj, op["dtype"][:-2])()
+                else:
+                    dt = getattr(torch, op["dtype"])
+                    r = h.obj.half() if op["dtype"] == "float16" else h.obj.to(dt)
                 if r is not h.obj:
                     raise Violation("op_succeeds", "to_returned_other_object", where)
                 for pm in h.params:
